@@ -1,0 +1,42 @@
+//go:build verif
+
+package dv
+
+import (
+	"github.com/named-data/ndnd/dv/nfdc"
+	"github.com/named-data/ndnd/dv/table"
+	enc "github.com/named-data/ndnd/std/encoding"
+	"github.com/named-data/ndnd/std/ndn"
+	ndn_sync "github.com/named-data/ndnd/std/sync"
+)
+
+// Accessors and wrappers of unexported methods for the verification harness (property C19). No behaviour change.
+
+func (dv *Router) Vf19Rib() *table.Rib                 { return dv.rib }
+func (dv *Router) Vf19Neighbors() *table.NeighborTable { return dv.neighbors }
+func (dv *Router) Vf19Pfx() *table.PrefixTable         { return dv.pfx }
+func (dv *Router) Vf19Fib() *table.Fib                 { return dv.fib }
+func (dv *Router) Vf19Nfdc() *nfdc.NfdMgmtThread       { return dv.nfdc }
+func (dv *Router) Vf19PfxSvs() *ndn_sync.SvSync        { return dv.pfxSvs }
+
+// Vf19Locked runs f while holding the router mutex (consistent table dumps).
+func (dv *Router) Vf19Locked(f func()) {
+	dv.mutex.Lock()
+	defer dv.mutex.Unlock()
+	f()
+}
+
+func (dv *Router) Vf19FibUpdate()                                     { dv.fibUpdate() }
+func (dv *Router) Vf19RibUpdate(ns *table.NeighborState)              { dv.ribUpdate(ns) }
+func (dv *Router) Vf19CheckDeadNeighbors()                            { dv.checkDeadNeighbors() }
+func (dv *Router) Vf19OnPfxSyncUpdate(u ndn_sync.SvSyncUpdate)        { dv.onPfxSyncUpdate(u) }
+func (dv *Router) Vf19PrefixDataFetch(nodeId enc.Name)                { dv.prefixDataFetch(nodeId) }
+func (dv *Router) Vf19PrefixDataFetchAll()                            { dv.prefixDataFetchAll() }
+func (dv *Router) Vf19AdvertDataHandler(data ndn.Data)                { dv.advertDataHandler(data) }
+func (dv *Router) Vf19AdvertDataOnInterest(a ndn.InterestHandlerArgs) { dv.advertDataOnInterest(a) }
+func (dv *Router) Vf19ReadvertiseOnInterest(a ndn.InterestHandlerArgs) {
+	dv.readvertiseOnInterest(a)
+}
+func (dv *Router) Vf19AdvertSyncOnInterest(a ndn.InterestHandlerArgs, active bool) {
+	dv.advertSyncOnInterest(a, active)
+}
